@@ -294,7 +294,10 @@ def run_raw_node_puts(ctx, FST, rnd, src, MOD):
         ctx.count('returned_and_compared')
         ref, _ = refparse(root.src)
         code = step.get('code') or ''
-        if step['ptype'] == 'ExceptHandler' and code.lstrip('(').startswith('*'):
+        import re as _re
+        star_handlers = lambda t: len(_re.findall(r'^[ \t]*except[ \t\\\n]*\*', t, _re.M))
+        if (step['ptype'] == 'ExceptHandler' or 'ExceptHandler' in (step.get('anc') or ())) and code.lstrip('(').startswith('*') and \
+                (step['ptype'] == 'ExceptHandler' or star_handlers(root.src) != star_handlers(before[0])):   # the put '*' became (part of) an except* marker
             ctx.violation('except-star-marker-edit-not-propagated-to-try', f'raw {step["op"]} of {code!r} into ExceptHandler.type: {short(root.src, 200)!r}', case)
             return
         structural = step['kind'] in ('stmt', 'handler', 'case') or any(c in code for c in '\n;#') or step['op'] not in ('replace', 'put')
